@@ -1240,7 +1240,11 @@ class Interp:
 
     def _havoc(self, scope, names, spec, unset_unknown=True):
         if spec is not None and getattr(spec, "ghost_havoc", None) is not None:
-            spec.ghost_havoc()
+            import inspect
+            if len(inspect.signature(spec.ghost_havoc).parameters) >= 1:
+                spec.ghost_havoc(NS(scope))
+            else:
+                spec.ghost_havoc()
         for nm in sorted(names):
             cur = scope.vars.get(nm, _MISSING)
             ty = spec.types.get(nm) if spec else None
@@ -1361,9 +1365,12 @@ class Interp:
             CTX.assume(z3.And(0 <= k.t, k.t < _zint(n)))
             self._assume_inv(spec, scope, old, {"idx": k})
             self.assign_target(s.target, frozen.get(k), scope)
+            token = spec.at_head(NS(scope, old, {"idx": k})) if spec.at_head is not None else None
             r = self._run_body(s.body, scope)
             if r == "break":
                 return
+            if spec.at_end is not None:
+                spec.at_end(NS(scope, old, {"idx": k}), token)
             self._check_inv(spec, scope, old, {"idx": mk_int(k.t + 1)}, "preserve", key)
             raise PathEnd("loop preservation path")
         else:
